@@ -54,7 +54,10 @@ check("C19", "other",
       "#expectations / #lines). Diff renderer: on one failed test case with an unmatched expectation and an unexpected line of 0..2/3 "
       "arbitrary bytes (valid and invalid UTF-8) it returns a rendering with one `-` and one `+` line. Pretty and diff renderer on long "
       "multi-byte lines (40..200 / 20..500 two-byte characters, both boundary parities) through their real text paths: no panic, both "
-      "differences shown in full. json / yaml (serde) and the summary sections are not claimed.",
+      "differences shown in full; every diff shape of <= 3 items (every unmatched expectation and unexpected line is in the rendering); every list of <= 2/3 "
+      "outcomes over passed / malformed output / wrong exit code / timed out / skipped, with and without locations: a rendering comes back, it shows the "
+      "differences of the failed test cases and has nothing of a test case that passed. `Serialize for Outcome` against a recording serializer: one entry per "
+      "outcome with its result kind. The json / yaml encoders themselves are not claimed.",
       E2_NOTE, E2_TECH + "; Kani/CBMC harness as second engine", "E2+E1", "DESIGN.md §3 C19")
 
 check("C06", "other",
@@ -66,7 +69,8 @@ check("C06", "other",
       "blank, scrut / foreign / bare fences of three and four backticks, indented backtick runs, commands, continuations, expectations, exit "
       "code, inline configuration with and without a trailing blank, titles opening with a non-ASCII letter, front-matter incl. empty and "
       "unterminated) vs the statement: test count, command, expectations, exit code, line number, title where unambiguous, and the inline "
-      "configuration text handed to the YAML reader. YAML contents, CRLF documents and long documents are not claimed.",
+      "configuration text handed to the YAML reader. Documents of <= 3/4 lines also with CR LF line endings and without final newline. YAML contents and "
+      "long documents are not claimed.",
       E2_NOTE, E2_TECH, "E2+E1", "DESIGN.md §3 C06")
 
 check("C04", "other",
@@ -96,7 +100,8 @@ check("C16", "other",
 check("C05", "other",
       "Partial: the verdict of TestCase::validate for every exit status / exit code / expected code / output_stream setting with "
       "the diff cut out as a free Boolean (wrong exit code reported as such before any diff; right stream compared; Ok ⇔ no "
-      "differences; a status without exit code never passes), and the executor's padding with Unknown outputs after an Unknown "
+      "differences; a status without exit code never passes; stdout / stderr written or empty, with / without an expectation — a verdict reached without "
+      "looking at the output must be the only possible one), and the executor's padding with Unknown outputs after an Unknown "
       "status (whole-function symbolic run of StatefulExecutor::execute_all). Signal→status conversion of subprocess results and "
       "the CLI's counting are not claimed here.",
       E2_NOTE, E2_TECH, "E2", "DESIGN.md §3 C05")
@@ -115,7 +120,7 @@ check("C14", "other",
 check("C15", "other",
       "Partial (executor level): whole-function symbolic execution of StatefulExecutor::execute_all: it returns Err(Skipped(i)) "
       "exactly for the first test whose status is Skipped or whose exit code equals its effective skip code (test config, else "
-      "document defaults, else 80), for all exit codes and skip codes, documents of <= 2/3 tests. That the CLI then reports every "
+      "document defaults, else 80), for all exit codes and skip codes and whatever exit code the test cases expect, documents of <= 2/3 tests. That the CLI then reports every "
       "test of the document as skipped is C20's claim. Single-script (Cram / --cram-compat) executor: whole BashScriptExecutor::execute_all with the "
       "script run replaced by its divider output — Err(Skipped) ⇔ a test case that ran exits with the test cases' skip code (else 80), also when the "
       "document's defaults name another code and when a test case ends the script (1..2/3 test cases, codes {0, 7, 80}).",
@@ -175,7 +180,8 @@ check("C17", "other",
       "is decided). The scalar keys (output_stream, keep_crlf, detached, strip_ansi_escaping, skip_document_code over 18 codes) are written iff set, "
       "with the spelling the reader accepts; is_empty ⇔ nothing is set (generator round trip); the derived Serialize for TestCaseConfig, run against a "
       "recording serializer with a fully symbolic configuration, writes every key that is set with its value and announces the right count "
-      "(witnesses through the real serde_yaml round trip). Document front-matter rendering, humantime and serde_yaml themselves are not claimed.",
+      "(witnesses through the real serde_yaml round trip). What `create` / `--convert` write is the difference to the format default: "
+      "diff(c, D).with_defaults_from(D) = c.with_defaults_from(D) for fully symbolic c and D. Document front-matter rendering, humantime and serde_yaml themselves are not claimed.",
       E2_NOTE, E2_TECH, "E2", "DESIGN.md §3 C17")
 
 check("C07", "other",
@@ -183,15 +189,15 @@ check("C07", "other",
       "template document of <= 4/5 lines (title, blank, comment, command, continuation, expectations with inner/leading/trailing blanks, exit "
       "code; symbolic payload letters) the result is Err or exactly the tests the statement prescribes — command with continuations, "
       "expectations with indentation removed and other whitespace kept, exit code, line number, title where unambiguous, Cram defaults. "
-      "(The finding of this check — output lines before any command were attached to the next command — is fixed in 068e7bb.) Lines whose leading whitespace is not the two-space indentation (tabs, blank + tab, wide / no-break space) are unindented text and "
+      "Whitespace-only lines: the indentation alone / with further blanks is an expectation, a single blank is unindented text. (The finding of this check — output lines before any command were attached to the next command — is fixed in 068e7bb.) Lines whose leading whitespace is not the two-space indentation (tabs, blank + tab, wide / no-break space) are unindented text and "
       "never crash the parser. Other non-ASCII text and long documents are outside.",
       E2_NOTE + " Additionally trusts lib/miniregex.py.", E2_TECH, "E2", "DESIGN.md §3 C07")
 check("C10", "other",
       "Partial. On the MIR of parse ∘ generate_update for every template Markdown document of <= 4/5 lines (and <= 6/7 lines over reduced template "
       "sets: long fences with foreign-fence lines and indented backtick runs, front-matter, inline configuration): with all tests passing update does "
       "not crash and returns the document unchanged line for line — front-matter, prose, foreign blocks, comments, commands, expectation lines, text "
-      "after the last test; an unterminated scrut block only gains its closing fence (idempotence follows). With any subset of tests failing only the "
-      "failing blocks change (fence language, comments, command, exit code kept, new output written) and the updated document parses with the real "
+      "after the last test; an unterminated scrut block only gains its closing fence (idempotence follows). With any subset of tests failing — on their output or on their exit code — only the "
+      "failing blocks change (fence language, comments, command kept; exit code kept, or the new one written; new output written) and the updated document parses with the real "
       "parser to the same commands. Commands with an empty continuation line, a continuation line ending in a blank, or no text at all are among the "
       "templates (the defects they exposed are fixed in af1291e). Multi-line new output, CRLF documents and Cram documents are not claimed.",
       E2_NOTE + " Additionally trusts lib/miniregex.py.", E2_TECH, "E2", "DESIGN.md §3 C10")
